@@ -17,6 +17,8 @@ var DefaultInitPackages = []string{
 	"context", "io/fs", "os", "syscall", "time",
 	"google.golang.org/grpc/codes", "google.golang.org/grpc/metadata",
 	"google.golang.org/protobuf/encoding/protowire",
+	"google.golang.org/protobuf/reflect/protoreflect",
+	"google.golang.org/genproto/googleapis/api/annotations",
 	"google.golang.org/protobuf/internal/errors",
 	"google.golang.org/protobuf/encoding/protodelim",
 	"google.golang.org/genproto/googleapis/rpc/code",
